@@ -13,7 +13,7 @@ def rec(name, fields, ns=None, **kw):
 def gen_set(rng, k):
     """returns (list of schema json, description)"""
     shape = rng.choice(['chain', 'diamond', 'cycle', 'cross-namespace', 'nested-definition-referenced', 'self-recursive+dep', 'dup-top-level', 'dup-nested-vs-top',
-                        'dup-nested-in-two', 'alias-collides-with-name', 'dangling', 'enum-fixed-mix', 'leading-dot-ref', 'independent', 'random-graph', 'random-graph', 'random-graph'])
+                        'dup-nested-in-two', 'alias-collides-with-name', 'dangling', 'enum-fixed-mix', 'leading-dot-ref', 'independent', 'keyword-names', 'random-graph', 'random-graph', 'random-graph'])
     ns = rng.choice([None, 'a', 'a.b', 'com.x'])
     q = (lambda n: (ns + '.' + n) if ns else n)
     if shape == 'random-graph':
@@ -50,6 +50,16 @@ def gen_set(rng, k):
                     fs.append(('f%d' % j, t))
             out.append(rec('T%d' % i, fs, nsof[i]))
         return out, shape
+    if shape == 'keyword-names':
+        # legal names that coincide with words of the schema language (only primitive type names are reserved)
+        kws = rng.sample(['map', 'array', 'error', 'union', 'decimal', 'items', 'values', 'symbols', 'namespace', 'type'], 3)
+        kns = rng.choice(['geo', 'a.b', None])
+        kq = (lambda n: (kns + '.' + n) if kns else n)
+        out = [rec(kws[0], [('v', 'int')], kns),
+               {'type': 'enum', 'name': kq(kws[1]), 'symbols': ['A', 'B']},
+               rec('User', [('m', kq(kws[0])), ('e', ['null', kq(kws[1])]), ('l', {'type': 'array', 'items': kq(kws[0])})], kns),
+               rec(kws[2], [('u', ['null', kq('User')]), ('again', {'type': 'map', 'values': kq(kws[1])})], kns)]
+        return out[:max(3, k)], shape
     if shape == 'chain':
         names = ['N%d' % i for i in range(k)]
         out = []
